@@ -871,9 +871,9 @@ func (ctx Ctx) structSelector(info structTypeInfo, e *ast.SelectorExpr) coq.Stru
 }
 
 func (ctx Ctx) compositeLiteral(e *ast.CompositeLit) coq.Expr {
-	if _, ok := ctx.typeOf(e).Underlying().(*types.Slice); ok {
+	if sliceTy, ok := ctx.typeOf(e).Underlying().(*types.Slice); ok {
 		if len(e.Elts) == 0 {
-			elemTy := ctx.coqType(e.Type).(coq.SliceType).Value
+			elemTy := ctx.coqTypeOfType(e, sliceTy.Elem())
 			zeroLit := coq.IntLiteral{Value: 0}
 			return coq.NewCallExpr(coq.GallinaIdent("NewSlice"), elemTy, zeroLit)
 		}
